@@ -1,0 +1,27 @@
+//go:build verif
+
+package transport
+
+import (
+	"context"
+
+	"github.com/IrineSistiana/mosproxy/internal/dnsmsg"
+)
+
+// Thin exported wrappers for the verification harness in /verif.
+
+// VerifGetConn is the first half of ExchangeContext: it obtains a connection from the
+// pool exactly as ExchangeContext does and returns the second half (one exchange on that
+// connection, then release; no retry). It lets the harness produce, deterministically, the
+// schedule in which several callers were handed the same connection before any of them
+// reached addQueueC (e.g. when a single wire id is left).
+func (t *PipelineTransport) VerifGetConn(ctx context.Context) (func(ctx context.Context, m []byte) (*dnsmsg.Msg, error), error) {
+	conn, _, err := t.getConn(ctx)
+	if err != nil {
+		return nil, err
+	}
+	return func(ctx context.Context, m []byte) (*dnsmsg.Msg, error) {
+		defer t.releaseConn(conn)
+		return conn.exchange(ctx, m)
+	}, nil
+}
